@@ -137,6 +137,8 @@ def run_storage(cat, num, max_depth, cap, grace, seed, nupdates, gen, log_from=0
     val_tok = {}
 
     def vtok(f, v):
+        if v is None or isinstance(v, (list, dict, tuple)):
+            return 0               # not a feature value at all: no token (the clause comparing it with the allowed tokens fails)
         key = (f, float(v) if not isinstance(v, str) else v)
         if key not in val_tok:
             val_tok[key] = len(val_tok) + 1
@@ -217,7 +219,8 @@ def run_storage(cat, num, max_depth, cap, grace, seed, nupdates, gen, log_from=0
                     else:
                         allowed.append({"any": True, "tokens": []})
                 unmod = (x == x_before and sub == sub_before and {f: reservoirs(f)[0] for f in feats} == res_before)
-                finite = all(isinstance(inp.get(f), str) or math.isfinite(float(inp.get(f))) for inp in model_inputs for f in all_names)
+                finite = all(isinstance(inp.get(f), str) or (isinstance(inp.get(f), (int, float, np.number)) and math.isfinite(float(inp.get(f))))
+                             for inp in model_inputs for f in all_names)
                 ev.append({"k": "impute", "mode": mode, "t": t, "n": n, "count": count,
                            "subset": [all_names.index(f) + 1 for f in sub],
                            "x": [vtok(f, x[f]) for f in all_names],
